@@ -2,7 +2,7 @@
    Only property theorems (closed by `exact`), their assumption printouts and non-vacuity examples. *)
 From Coq Require Import ZArith List Bool Arith.
 From WH.Model Require Import EditDist AlleleDetect.
-From WH.Proofs Require Import AlleleDetectProofs AlleleDetectNoref AlleleDetectRefuted.
+From WH.Proofs Require Import AlleleDetectProofs AlleleDetectNoref AlleleDetectRefuted AlleleDetectComplete AlleleDetectIndel.
 Import ListNotations.
 
 (* --- the lock-step walk over CIGAR and variants ------------------------------------------------- *)
@@ -85,6 +85,45 @@ Example C06_realign_example :
   realign original_rules reference 3 v cig query 1 3 4 = Some (Some 1).
 Proof. vm_compute. repeat split; try reflexivity; try (repeat constructor); left; reflexivity. Qed.
 
+(* "With a reference the correct allele is always found", at the level of detect_alleles_by_alignment: for a variant
+   list with strictly increasing positions, an alignment whose unit operations decompose as pre ++ LM ++ V ++ RM ++ post
+   around variant j as in C06_realign_correct (V starts at the variant's position; REF is non-empty as in every VCF
+   record) reports (j, carried allele, quality 30) -- whenever detect_alleles_by_alignment returns at all, i.e. no
+   AssertionError is raised for one of the OTHER variants the alignment overlaps. *)
+Theorem C06_detect_by_alignment_finds :
+  forall (R : rules) (reference query : list Z) (overhang : nat) (variants : list variant) (start : nat) (cig : cigar)
+         (j : nat) (v : variant) (pre LM V RM post : list cop) (r1 WL WR r2 q1 q2 : list Z) (carried : nat)
+         (ds : list det),
+  0 < overhang -> positive_lengths cig ->
+  sorted_strict (index_from 0 variants) -> nth_error variants j = Some v ->
+  expand cig = pre ++ LM ++ V ++ RM ++ post ->
+  vpos v = start + ref_units (pre ++ LM) ->
+  forallb is_match LM = true -> forallb is_match RM = true -> forallb is_aligned V = true ->
+  carried <= 1 ->
+  0 < length (vref v) -> ref_units V = length (vref v) -> query_units V = length (get_allele v carried) ->
+  (overhang <= length LM \/ window_end R (rev pre)) ->
+  (overhang <= length RM \/ window_end R post) ->
+  reference = r1 ++ WL ++ vref v ++ WR ++ r2 -> vpos v = length r1 + length WL ->
+  query = q1 ++ WL ++ get_allele v carried ++ WR ++ q2 ->
+  length WL = length LM -> length WR = length RM -> length q1 = query_units pre ->
+  vref v <> valt v -> is_symbolic v = false ->
+  detect_by_alignment R reference overhang variants start cig query = Some ds ->
+  In (j, carried, 30) ds.
+Proof. exact detect_by_alignment_finds. Qed.
+Print Assumptions C06_detect_by_alignment_finds.
+
+(* non-vacuity: the insertion of C06_realign_example (second variant of three), read aligned at reference position 2 *)
+Example C06_detect_by_alignment_example :
+  let reference := [1;2;3;4;1;2;4;3;1;2;3;3]%Z in
+  let variants := [mkVar 1 [2] [4]; mkVar 5 [2] [2;9;9]; mkVar 11 [3] [1]]%Z in
+  let cig := [(OpS, 1); (OpM, 4); (OpI, 2); (OpM, 4)] in
+  let query := [7; 3;4;1; 2;9;9; 4;3;1;2]%Z in
+  sorted_strict (index_from 0 variants) /\
+  expand cig = [OpS] ++ [OpM;OpM;OpM] ++ [OpM;OpI;OpI] ++ [OpM;OpM;OpM;OpM] ++ [] /\
+  5 = 2 + ref_units ([OpS] ++ [OpM;OpM;OpM]) /\
+  detect_by_alignment current_rules reference 3 variants 2 cig query = Some [(1, 1, 30)].
+Proof. vm_compute. repeat split; repeat constructor. Qed.
+
 (* The same statement with reference skips (N) admitted as window ends -- i.e. with `window_end repaired_rules` in the
    hypotheses -- is AlleleDetect.realign_correct_with_skips_statement R.  It holds for the code as it is now
    (current_rules; skip rule repaired by fix 8735279) and was refuted by the code as it was (original_rules):
@@ -115,9 +154,12 @@ Proof. exact detect_noref_snv. Qed.
 Print Assumptions C06_detect_noref_snv.
 
 (* The full reference-free statement: AlleleDetect.detect_noref_never_wrong_statement R (SNVs and pure insertions /
-   deletions shown at the variant's normalised position, flanked by aligned bases).  Proved here: its SNV clause, for
-   every rule set.  Missing: the insertion/deletion clause for the code as it is now (validated by the
-   correspondence check only); for the code as it was (original_rules) that clause is refuted below. *)
+   deletions shown at the variant's normalised position, flanked by aligned bases).  Proved here: its SNV clause for every
+   rule set (C06_detect_noref_never_wrong_partial), and of its insertion/deletion clause, for the code as it is now,
+   the three cases "deletion, REF shown", "deletion, ALT shown", "insertion, REF shown"
+   (C06_detect_noref_never_wrong_indel_partial).  Missing: the case "insertion shown (ALT carried) => REF is not
+   reported", validated by the correspondence check only.  For the code as it was (original_rules) the
+   insertion/deletion clause is refuted below. *)
 Definition C06_detect_noref_never_wrong_full_statement : Prop :=
   detect_noref_never_wrong_statement current_rules.
 
@@ -133,6 +175,42 @@ Theorem C06_detect_noref_never_wrong_partial :
   a = carried.
 Proof. exact detect_noref_never_wrong_snv. Qed.
 Print Assumptions C06_detect_noref_never_wrong_partial.
+
+Theorem C06_detect_noref_never_wrong_indel_partial :
+  forall (R : rules), r_ins_span R = true ->
+  forall (variants : list variant) (start : nat) (cig : cigar) (query quals : list Z) (j a q : nat)
+         (v : variant) (carried : nat) (pre V post : list cop),
+  sorted_pos (index_from 0 (map normalized variants)) -> positive_lengths cig ->
+  In (j, a, q) (detect_noref R variants start cig query quals) ->
+  nth_error (map normalized variants) j = Some v ->
+  pure_indel v -> carried <= 1 ->
+  expand cig = pre ++ V ++ post -> vpos v = start + ref_units pre -> allele_units v carried V ->
+  flanked pre post ->
+  (vref v = [] -> carried = 0) ->
+  a = carried.
+Proof. exact detect_noref_never_wrong_indel_kill. Qed.
+Print Assumptions C06_detect_noref_never_wrong_indel_partial.
+
+(* non-vacuity: a deletion shown by the read (CG>C at 4: normalised G> at 5) and an insertion not shown (A>ATT at 8) *)
+Example C06_detect_noref_indel_example :
+  let variants := [mkVar 4 [67;71] [67]; mkVar 8 [65] [65;84;84]]%Z in
+  let cig := [(OpM, 3); (OpD, 1); (OpM, 6)] in
+  let query := [65;67;67; 84;65;67;65;71;71]%Z in
+  map normalized variants = [mkVar 5 [71] []; mkVar 9 [] [84;84]]%Z /\
+  sorted_pos (index_from 0 (map normalized variants)) /\
+  detect_noref current_rules variants 2 cig query [] = [(0, 1, 30); (1, 0, 30)] /\
+  expand cig = [OpM;OpM;OpM] ++ [OpD] ++ [OpM;OpM;OpM;OpM;OpM;OpM] /\
+  allele_units (mkVar 5 [71] [])%Z 1 [OpD] /\ flanked [OpM;OpM;OpM] [OpM;OpM;OpM;OpM;OpM;OpM] /\
+  expand cig = [OpM;OpM;OpM;OpD;OpM;OpM;OpM] ++ [] ++ [OpM;OpM;OpM] /\
+  allele_units (mkVar 9 [] [84;84])%Z 0 [] /\ flanked [OpM;OpM;OpM;OpD;OpM;OpM;OpM] [OpM;OpM;OpM].
+Proof.
+vm_compute. repeat split; repeat constructor.
+- exists []. repeat split.
+- exists [OpM; OpM], OpM. now split.
+- exists OpM, [OpM;OpM;OpM;OpM;OpM]. now split.
+- exists [OpM;OpM;OpM;OpD;OpM;OpM], OpM. now split.
+- exists OpM, [OpM;OpM]. now split.
+Qed.
 
 (* non-vacuity: two SNVs, the second inside a read with soft clip, insertion and skip; both resolved *)
 Example C06_detect_noref_example :
@@ -163,20 +241,31 @@ Print Assumptions C06_detect_noref_only_overlapped_original_refuted.
 
 (* --- read pairs ---------------------------------------------------------------------------------- *)
 
-(* "Both primary alignments of a pair contribute" (AlleleDetect.pair_keeps_both_mates_statement) was refuted by the code
+(* "Both primary alignments of a pair contribute" (AlleleDetect.pair_keeps_both_mates_statement: the allele of a
+   variant detected on the first mate is in the merged read, provided no alignment of the pair reports that position
+   differently) holds for the code as it is now and was refuted by the code
    as it was: create_read_from_group dropped every alignment whose strand differs from the last primary one, i.e. one
    mate of every forward/reverse pair (repaired by fix ad24a2d). *)
+Theorem C06_pair_keeps_both_mates : pair_keeps_both_mates_statement current_rules.
+Proof. exact pair_keeps_both_mates_current. Qed.
+Print Assumptions C06_pair_keeps_both_mates.
+
 Theorem C06_pair_keeps_both_mates_original_refuted : ~ pair_keeps_both_mates_statement original_rules.
 Proof. exact pair_keeps_both_mates_original_refuted. Qed.
 Print Assumptions C06_pair_keeps_both_mates_original_refuted.
 
-(* "A single primary alignment keeps the alleles detected on it" (AlleleDetect.single_alignment_kept_statement) is
-   refuted by the code as it is: AlignedRead.distance(primary, primary) is the reference span of the alignment, so an
-   alignment spanning more than the supplementary distance threshold (default 100 000) drops out of its own group and
-   the read loses every allele.  (Reproduced on the real implementation with a 100 250 base alignment.) *)
-Theorem C06_single_alignment_kept_refuted : ~ single_alignment_kept_statement current_rules.
-Proof. exact single_alignment_kept_current_refuted. Qed.
-Print Assumptions C06_single_alignment_kept_refuted.
+(* "A single primary alignment keeps the alleles detected on it" (AlleleDetect.single_alignment_kept_statement) holds
+   for the code as it is now and was refuted by the code as it was: AlignedRead.distance(primary, primary) was the reference span of the alignment, so an
+   alignment spanning more than the supplementary distance threshold (default 100 000) dropped out of its own group and
+   the read lost every allele (reproduced on the real implementation with a 100 250 base alignment; repaired by fix
+   9cec2b4). *)
+Theorem C06_single_alignment_kept : single_alignment_kept_statement current_rules.
+Proof. exact single_alignment_kept_current. Qed.
+Print Assumptions C06_single_alignment_kept.
+
+Theorem C06_single_alignment_kept_original_refuted : ~ single_alignment_kept_statement original_rules.
+Proof. exact single_alignment_kept_original_refuted. Qed.
+Print Assumptions C06_single_alignment_kept_original_refuted.
 
 (* the witnesses at the level of ReadSetReader.read, under the rules of the code as it was (what the real
    implementation returned before the fix: commits; found by the correspondence check) and under the repaired rules *)
@@ -214,7 +303,7 @@ Example C06_witnesses :
     [aln 0 false 0 [(OpM, 5)] [71;65;71;67;65]%Z; aln 0 true 5 [(OpM, 5)] [71;84;65;67;65]%Z]
     = Some [(0, [(2, 1, 30); (7, 1, 30)])] /\
   (* an alignment longer than the distance threshold (here 8) *)
-  read_set_default current_rules (Some [71;65;84;67;65;71;84;67;67;65]%Z) 8%Z [mkVar 2 [84]%Z [71]%Z]
+  read_set_default original_rules (Some [71;65;84;67;65;71;84;67;67;65]%Z) 8%Z [mkVar 2 [84]%Z [71]%Z]
     [aln 0 false 0 [(OpM, 10)] [71;65;71;67;65;71;84;67;67;65]%Z] = Some [(0, [])] /\
   read_set_default repaired_rules (Some [71;65;84;67;65;71;84;67;67;65]%Z) 8%Z [mkVar 2 [84]%Z [71]%Z]
     [aln 0 false 0 [(OpM, 10)] [71;65;71;67;65;71;84;67;67;65]%Z] = Some [(0, [(2, 1, 30)])].
